@@ -246,7 +246,7 @@ pub fn check_case(c: &Case) -> Check {
             if *dot {
                 args.push("--dot".into());
             }
-            let path = scratch.path("graph.out");
+            let path = scratch.stale("graph.out");
             if *to_file {
                 args.push("-o".into());
                 args.push(path.to_string_lossy().into_owned());
@@ -260,6 +260,10 @@ pub fn check_case(c: &Case) -> Check {
             let feasible = want_edges <= max_edges;
             // every run is a fresh sample: three runs
             for run in 0..3 {
+                if *to_file {
+                    // an earlier, longer output is already there
+                    let _ = scratch.stale("graph.out");
+                }
                 let out = run_tool(&args);
                 if out.timed_out {
                     return Err(v("HARNESS: random_graph_gen timed out".into()));
@@ -280,7 +284,8 @@ pub fn check_case(c: &Case) -> Check {
                             want_edges, vertices, max_edges, run
                         )));
                     }
-                    let wrote = parse_output(&text, *dot, *undirected).map(|e| e.len()).unwrap_or(0);
+                    let untouched = *to_file && text.starts_with("stale,content");
+                    let wrote = if untouched { 0 } else { parse_output(&text, *dot, *undirected).map(|e| e.len()).unwrap_or(0) };
                     if wrote > 0 {
                         return Err(v(format!("the refused request still wrote {} edges", wrote)));
                     }
